@@ -61,7 +61,7 @@ impl Method for SWMA {
 		match length {
 			0 => Err(Error::WrongMethodParameters),
 			length => {
-				let left_length = (length + 1) / 2;
+				let left_length = length / 2 + length % 2;
 				let right_length = length / 2;
 
 				let right_length2 = right_length as usize;
